@@ -45,6 +45,8 @@ def build_pool(workdir):
     P["sum_dup"] = PauliSum([t_shared, PauliTerm({1: "Y"}, 1.0), t_shared, PauliTerm({3: "Z", 0: "Z"}, 0.25)])
     P["ising"] = PauliSum([PauliTerm({0: "Z"}, 2.0), PauliTerm({0: "Z", 1: "Z"}, -0.5), PauliTerm("I0", 1.5)])
     P["herm"] = PauliSum([PauliTerm({0: "X"}, 0.5), PauliTerm({1: "Z"}, -1.0)])
+    P["sum1q"] = PauliSum([PauliTerm({0: "Z"}, 0.5), PauliTerm({0: "X"}, 0.25), PauliTerm({0: "Y"}, -2.0)])      # an operator on a one-qubit register (no Kronecker factors to multiply)
+    P["wf_1q"] = Wavefunction(np.array([0.6, 0.8j]))
     P["meas"] = Measurements([(0, 1), (1, 1), (0, 1), (1, 0)])
     P["dist1"] = MeasurementOutcomeDistribution({"00": 0.5, "01": 0.25, "11": 0.25})
     P["dist2"] = MeasurementOutcomeDistribution({(0, 0): 1, (1, 0): 3})
@@ -95,6 +97,11 @@ def _aug(P, key, other, op):
     elif op == "**":
         x **= other
     return x
+
+
+def PauliTerm_(ops, c):
+    from orquestra.quantum.operators import PauliTerm
+    return PauliTerm(ops, c)
 
 
 def menu():
@@ -187,6 +194,10 @@ def menu():
         "opset.save": lambda P: _file(P, "os.json", lambda p: O.save_operator_set([P["sum"], P["sum_dup"]], p)),
         "sum.sparse": lambda P: O.get_sparse_operator(P["sum"], 3),
         "sum_dup.sparse": lambda P: O.get_sparse_operator(P["sum_dup"]),
+        "sum1q.sparse": lambda P: O.get_sparse_operator(P["sum1q"]),
+        "sum1q.sparse_n1": lambda P: O.get_sparse_operator(P["sum1q"], 1),
+        "sum1q.expect": lambda P: O.get_expectation_value(P["sum1q"], P["wf_1q"]),
+        "term1q.sparse": lambda P: O.get_sparse_operator(PauliTerm_({0: "X"}, 3.0)),
         "sum.reverse": lambda P: O.reverse_qubit_order(P["sum"], 3),
         "sum.expectation": lambda P: O.get_expectation_value(P["herm"], P["wf_num"]),
         "sum.expectation_rev": lambda P: O.get_expectation_value(P["herm"], P["wf_num"], True),
